@@ -276,6 +276,19 @@ impl Property for C10 {
                 }
             }
         }
+        // enumerations of whole numbers without `type`
+        {
+            let pool: Vec<i128> = vec![0, 1, -1, 255, 256, -129, 65536, i32::MAX as i128, (i32::MAX as i128) + 1, i64::MAX as i128 - 1023, 1i128 << 62, -(1i128 << 63), 1i128 << 63, 1i128 << 53, (1i128 << 53) + 2];
+            for a in &pool {
+                out.push(json!({"schema": {"enum": [num(*a)]}}));
+                for b in &pool {
+                    if a < b {
+                        out.push(json!({"schema": {"enum": [num(*a), num(*b)]}}));
+                        out.push(json!({"schema": {"enum": [num(*a), num(*b), null]}}));
+                    }
+                }
+            }
+        }
         // format tables
         let known = ["uuid", "date", "date-time", "ip", "ipv4", "ipv6"];
         for f in known {
@@ -432,6 +445,25 @@ impl Property for C10 {
                     unit.violations.push(Violation::new("format-table", format!("number format {:?} mapped to {} (expected {})", f, chosen, expect)));
                 }
             }
+            "" if schema.contains_key("enum") => {
+                // an enumeration of numbers without `type`: whatever scalar is chosen must be able to
+                // hold every listed value exactly
+                let exact = |v: &Value| v.as_i64().map(|x| x as i128).or_else(|| v.as_u64().map(|x| x as i128));
+                let vals: Vec<i128> = schema["enum"].as_array().map(|a| a.iter().filter_map(exact).collect()).unwrap_or_default();
+                unit.nontrivial = !vals.is_empty();
+                let c = chosen.replace(' ', "");
+                for v in vals {
+                    let ok = match type_range(&c) {
+                        Some((lo, hi, _)) => v >= lo && v <= hi,
+                        None if c == "f64" => exact_f64(v),
+                        None if c == "f32" => (v as f32) as i128 == v && v.unsigned_abs() < (1u128 << 24),
+                        None => true, // not a scalar: nothing to claim here
+                    };
+                    if !ok {
+                        unit.violations.push(Violation::new("admitted-unrepresentable", format!("schema {} lists {} but the chosen type {} cannot represent it", Value::Object(schema.clone()), v, chosen)));
+                    }
+                }
+            }
             _ => {}
         }
         unit
@@ -439,6 +471,9 @@ impl Property for C10 {
     fn in_domain(&self, case: &Value) -> bool {
         // shrunk schemas must stay integer/string/number leaf schemas with integral bounds
         let Some(s) = case.get("schema").and_then(|s| s.as_object()) else { return false };
+        if s.len() == 1 && s.contains_key("enum") {
+            return s["enum"].as_array().map(|a| !a.is_empty() && a.iter().all(|v| v.is_null() || v.is_i64() || v.is_u64())).unwrap_or(false) && case.get("with").is_none();
+        }
         let allowed = ["type", "format", "minimum", "maximum", "exclusiveMinimum", "exclusiveMaximum", "multipleOf", "default"];
         s.keys().all(|k| allowed.contains(&k.as_str()))
             && matches!(s.get("type").and_then(|t| t.as_str()), Some("integer") | Some("string") | Some("number"))
